@@ -43,6 +43,7 @@ func CloseWorld() {
 	if world != nil {
 		world.Close()
 	}
+	sysx.CleanupDirs()
 }
 
 // SysReq is a client request as sent on the wire.
